@@ -27,7 +27,7 @@ var R = hx.NewRecorder("C06", "cases = (server mode gm|auto|tls, client kind gm|
 	"non-trivial = handshake completed with data moved each way, or a forbidden combination that reached the peer's first flight; distinct by hash of the case description")
 
 func TestMain(m *testing.M) {
-	R.Require("ekm_long_input", "reconnect", "reconnect_resumed", "interop_suite:c030", "interop_suite:9d", "interop_suite:c02f", "interop_suite:c014", "interop_suite:cca8", "interop_suite:2f", "ref_peer", "readbuf<record", "mode:gm", "mode:auto", "mode:tls", "suite:e013", "suite:e053", "tls10", "tls11", "tls12", "auth:0", "auth:1", "auth:2", "auth:3", "auth:4",
+	R.Require("clientcert:via_intermediate", "ekm_long_input", "reconnect", "reconnect_resumed", "interop_suite:c030", "interop_suite:9d", "interop_suite:c02f", "interop_suite:c014", "interop_suite:cca8", "interop_suite:2f", "ref_peer", "readbuf<record", "mode:gm", "mode:auto", "mode:tls", "suite:e013", "suite:e053", "tls10", "tls11", "tls12", "auth:0", "auth:1", "auth:2", "auth:3", "auth:4",
 		"clientcert:untrusted", "clientcert:callback_untrusted", "certsource:callbacks", "stdlib_client", "stdlib_server", "passive_decoder", "payload>16KiB", "fragment==1", "must_fail", "must_succeed")
 	hx.Main(m, R)
 }
@@ -170,7 +170,7 @@ func drawCase(t *rapid.T) hsCase {
 	if gen.Uniform(t, "noauth", 3) == 0 {
 		c.ClientAuth = gmtls.NoClientCert
 	}
-	c.ClientCert = rapid.SampledFrom([]string{"none", "trusted", "trusted", "callback", "untrusted", "callback_untrusted", "expired", "serverauth_only"}).Draw(t, "clientcert")
+	c.ClientCert = rapid.SampledFrom([]string{"none", "trusted", "trusted", "callback", "untrusted", "callback_untrusted", "expired", "serverauth_only", "via_intermediate", "via_intermediate"}).Draw(t, "clientcert")
 	if c.ClientKind == "tls" {
 		c.ClientCert = rapid.SampledFrom([]string{"none", "rsa", "rsa"}).Draw(t, "clientcert_tls")
 	}
@@ -280,6 +280,8 @@ func build(c hsCase, id string) (ccfg, scfg *gmtls.Config) {
 	switch c.ClientCert {
 	case "trusted", "callback":
 		cc = p.Client
+	case "via_intermediate":
+		cc = p.ClientViaInter // chain [leaf, issuing CA]; the server's CA list names only the root
 	case "untrusted", "callback_untrusted":
 		cc = p.ClientUntrusted
 	case "expired":
@@ -841,8 +843,12 @@ func TestC06_Handshakes(t *testing.T) {
 		if c.ClientCert == "untrusted" {
 			// may or may not have been sent
 		} else if sends {
-			if len(ss.PeerCertificates) != 1 {
-				t.Fatalf("server sees %d client certificates, client sent one\n%s", len(ss.PeerCertificates), desc)
+			wantN := 1
+			if c.ClientCert == "via_intermediate" {
+				wantN = 2
+			}
+			if len(ss.PeerCertificates) != wantN {
+				t.Fatalf("server sees %d client certificates, client sent %d\n%s", len(ss.PeerCertificates), wantN, desc)
 			}
 		} else if len(ss.PeerCertificates) != 0 {
 			t.Fatalf("server sees a client certificate that was never sent\n%s", desc)
